@@ -54,6 +54,7 @@ def setup(ctx):
     ctx.require("monitor", "connections_after_other_clients", 50)
     ctx.require("monitor", "crowd_returns", 4)
     ctx.require("monitor", "acl_spelling_connections", 100)
+    ctx.require("monitor", "overlapping_pairs", 24)
 
 
 class Recorder:
@@ -718,6 +719,72 @@ def run_acl_spellings(ctx):
                         close_loop(loop)
 
 
+def run_overlapping(ctx):
+    """Two connections in flight on ONE chain (as on any server): a slow component in front, the deciding one behind
+    it.  One request is refused by the configuration, the other admitted; they enter the chain half a second apart, in
+    both orders.  Each is decided on ITS OWN url / address / certificate: the refused one reaches no handler."""
+    from nauyaca.server.middleware import AccessControl, AccessControlConfig, CertificateAuth, CertificateAuthConfig, CertificateAuthPathRule, MiddlewareChain
+    from nauyaca.server.protocol import GeminiServerProtocol
+
+    listed = certs.identity("c04-client", "ec")
+    deciders = {
+        "cert:/private/": (lambda: CertificateAuth(CertificateAuthConfig(path_rules=[CertificateAuthPathRule(prefix="/private/", require_cert=True)])),
+                           {"peer": ("192.0.2.7", 40001), "der": None, "path": "/private/doc.gmi", "status": 60}, {"peer": ("192.0.2.8", 40002), "der": None, "path": "/doc.gmi"}),
+        "cert:allow-list": (lambda: CertificateAuth(CertificateAuthConfig(path_rules=[CertificateAuthPathRule(prefix="/", require_cert=True, allowed_fingerprints={listed.fingerprint})])),
+                            {"peer": ("192.0.2.7", 40001), "der": certs.identity("c04-other-client", "rsa").der, "path": "/doc.gmi", "status": 61}, {"peer": ("192.0.2.8", 40002), "der": listed.der, "path": "/doc.gmi"}),
+        "acl:deny-peer": (lambda: AccessControl(AccessControlConfig(deny_list=["198.51.100.0/24"])),
+                          {"peer": ("198.51.100.23", 40001), "der": None, "path": "/doc.gmi", "status": 53}, {"peer": ("192.0.2.8", 40002), "der": None, "path": "/doc.gmi"}),
+    }
+    for dname, (make, refused, admitted) in deciders.items():
+        for proto_kind in ("gemini", "titan"):
+            for first in ("refused-first", "admitted-first"):
+                for gap in (0.0, 0.5):
+                    loop = new_loop()
+                    try:
+                        log = []
+                        slow = SpyMiddleware({"outcome": "allow", "delay": 1.0}, [], loop)
+                        chain = MiddlewareChain([slow, make()])
+                        h = SpyHandler({"mode": "sync", "outcome": "value", "status": 20, "meta": "text/gemini", "body": "handled\n"}, log, loop)
+                        up = SpyUpload({"outcome": "value", "status": 20, "meta": "text/gemini", "body": "stored\n"}, log, loop)
+
+                        def req_of(c, tag):
+                            if proto_kind == "gemini":
+                                return f"gemini://example.org{c['path']}?who={tag}\r\n".encode()
+                            return f"titan://example.org{c['path']};size=3;mime=text/plain;token={tag}\r\nabc".encode()
+
+                        sims = {}
+                        order = [("refused", refused), ("admitted", admitted)] if first == "refused-first" else [("admitted", admitted), ("refused", refused)]
+                        for i, (tag, c) in enumerate(order):
+                            sim = ServerSim(lambda: GeminiServerProtocol(h, chain, up), peername=c["peer"], peercert_der=c["der"], loop=loop, log=[])
+                            sim.start()
+                            sim.feed(req_of(c, tag))
+                            sims[tag] = sim
+                            if i == 0 and gap:
+                                loop.advance(gap)
+                        loop.run_until(loop.time() + 100.0)
+                        streams = {tag: bytes(sm.transport.written) for tag, sm in sims.items()}
+                        entered = [getattr(r, "raw_url", "") or "" for r in h.calls] + [c.get("raw_url", "") if isinstance(c, dict) else getattr(c, "raw_url", "") for c in up.calls]
+                        ran_refused = [u for u in entered if "refused" in u]
+                        ran_admitted = [u for u in entered if "admitted" in u]
+                        ctx.count("monitor", "connections", 2)
+                        ctx.count("monitor", "rejected_connections")
+                        ctx.count("monitor", "overlapping_pairs")
+                        if proto_kind == "titan":
+                            ctx.count("monitor", "titan_connections", 2)
+                        wit = {"chain": f"slow-allow(1s) + {dname}", "protocol": proto_kind, "order": first, "seconds_apart": gap, "refused_request": {"peer": refused["peer"][0], "path": refused["path"], "certificate": bool(refused["der"]), "owed": refused["status"]},
+                               "admitted_request": {"peer": admitted["peer"][0], "path": admitted["path"], "certificate": bool(admitted["der"])}, "streams": {k: v[:60] for k, v in streams.items()}, "handler_entries": entered}
+                        sfx = f":proto={proto_kind}:component={dname.split(':')[0]}:overlapping-connections"
+                        if ran_refused:
+                            ctx.violation("handler-after-deny" + sfx, f"the request the configuration refuses ({refused['status']}) reached a handler while another connection was in the chain", wit)
+                        elif not streams["refused"].startswith(str(refused["status"]).encode() + b" "):
+                            ctx.violation("wrong-rejection-bytes" + sfx, f"expected {refused['status']}, got {streams['refused'][:30]!r}", wit)
+                        if len(ran_admitted) != 1 or not streams["admitted"].startswith(b"20 "):
+                            ctx.violation("allowed-not-handled" + sfx, f"the admissible request got {streams['admitted'][:30]!r} ({len(ran_admitted)} handler entries)", wit)
+                        ctx.case(("overlapping", dname, proto_kind, first, gap, streams["refused"][:2], streams["admitted"][:2]), True, sample=wit)
+                    finally:
+                        close_loop(loop)
+
+
 def chains(ctx, rng):
     out = []
     # all single components, all ordered pairs of a reduced alphabet, sampled triples
@@ -753,6 +820,8 @@ def run(ctx):
             run_crowd(ctx)
         if ctx.mine(3) or ctx.nshards == 1:
             run_acl_spellings(ctx)
+        if ctx.mine(4) or ctx.nshards == 1:
+            run_overlapping(ctx)
         k = 0
         all_chains = chains(ctx, rng)
         for ci, chain in enumerate(all_chains):
